@@ -37,6 +37,25 @@ type caseSpec struct {
 	Term      string      `json:"terminal,omitempty"`
 	TA        int         `json:"ta,omitempty"`
 	TB        int         `json:"tb,omitempty"`
+	// Script (final value is a List): the list is first consumed through this access script
+	// (Head/Tail/IsEmpty/NonEmpty/Unapply calls in PRNG order), then as usual.
+	Script *scriptSpec `json:"script,omitempty"`
+}
+
+// scriptRange: the cells an access script may reach by Tail (positions 0..reach) and look at
+// (positions < inspect) so that its demand never exceeds the demand k (+ peek) of the case.
+func (sp *caseSpec) scriptRange() (reach, inspect int) {
+	if sp.Mode == "terminal" {
+		return sp.K, sp.K + 1
+	}
+	reach, inspect = sp.K-1, sp.K
+	if sp.TailLast {
+		reach = sp.K
+		if sp.Peek {
+			inspect = sp.K + 1
+		}
+	}
+	return
 }
 
 const maxOut = 1500
@@ -87,9 +106,9 @@ func genVals(r *rand.Rand, n int) ([]int, int) {
 }
 
 var opsFinite = []string{"map", "map", "filter", "filter", "filterMap", "flatMap", "flatMap", "take", "take", "drop", "drop", "takeWhile", "takeWhile", "dropWhile", "dropWhile",
-	"spanBoth", "partBoth", "prepend", "append", "zipIdx", "zip", "zip3", "scan", "scan", "tap", "reverse", "sort", "pull", "hop", "hop"}
+	"spanBoth", "partBoth", "prepend", "append", "zipIdx", "zip", "zip3", "scan", "scan", "tap", "reverse", "sort", "pull", "hop", "hop", "selfZip", "selfZip", "selfZip3", "selfCombine"}
 var opsUnbounded = []string{"map", "map", "filter", "filterMap", "flatMap", "take", "take", "drop", "takeWhile", "dropWhile", "spanBoth",
-	"prepend", "zipIdx", "zip", "zip3", "scan", "tap", "pull", "hop"}
+	"prepend", "zipIdx", "zip", "zip3", "scan", "tap", "pull", "hop", "selfZip", "selfZip3", "selfCombine"}
 
 func genStage(r *rand.Rand, op string, n int, unbounded bool, off int) stageSpec {
 	st := stageSpec{Op: op, Var: r.IntN(24)}
@@ -157,6 +176,8 @@ func genStage(r *rand.Rand, op string, n int, unbounded bool, off int) stageSpec
 		st.A, st.B = r.IntN(nScan), r.IntN(5)
 	case "sort", "hop":
 		st.A = r.IntN(4)
+	case "selfZip", "selfCombine":
+		st.A = r.IntN(3)
 	}
 	return st
 }
@@ -219,6 +240,9 @@ func genSpec(r *rand.Rand) *caseSpec {
 		}
 		n = len(sp.Vals)
 		ns := 1 + r.IntN(6)
+		if world == wList && r.IntN(14) == 0 {
+			ns = 0 // the list constructor itself is what the consumer (access script) sees
+		}
 		flat := 0
 		for len(sp.Stages) < ns {
 			ops := opsFinite
@@ -235,8 +259,7 @@ func genSpec(r *rand.Rand) *caseSpec {
 			sp.Stages = append(sp.Stages, genStage(r, op, n, unbounded, sp.Off))
 		}
 		// consumer
-		steps := planAll(sp, nil)
-		final := steps[len(steps)-1].to
+		final := finalWorld(sp)
 		if !unbounded && (final == wSeq || r.IntN(100) < 45) {
 			sp.Mode = "terminal"
 			kinds := []string{}
@@ -254,6 +277,7 @@ func genSpec(r *rand.Rand) *caseSpec {
 		}
 		// reference output: bounds the size, fixes k, and rejects unbounded pipelines whose demand
 		// cannot be met by a finite prefix of the source (the property does not promise those)
+		wantScript := final == wList && r.IntN(100) < 70
 		if unbounded {
 			sp.K = []int{0, 1, 2, 5, 17, 40}[r.IntN(6)]
 			if _, ok := modelPulls(sp, true, sp.K+2); !ok {
@@ -261,6 +285,11 @@ func genSpec(r *rand.Rand) *caseSpec {
 					continue
 				}
 				return genSpecFallback(r)
+			}
+			if wantScript {
+				reach, insp := sp.scriptRange()
+				full, _, _ := modelRun(sp, false, insp)
+				sp.Script = genScript(r, reach, insp, len(full))
 			}
 			return sp
 		}
@@ -276,6 +305,10 @@ func genSpec(r *rand.Rand) *caseSpec {
 			case "foldRight", "foldRightShort", "foldLeft", "foldLeftMap", "foldRightMap", "foldMap", "reduce", "reduceAff", "reduceStr":
 				sp.Term = "toSeq"
 			}
+		}
+		if wantScript && (sp.Mode == "demand" || r.IntN(2) == 0) {
+			reach, insp := sp.scriptRange()
+			sp.Script = genScript(r, reach, insp, m)
 		}
 		return sp
 	}
@@ -352,6 +385,9 @@ type obs struct {
 	final      int
 	listy      bool
 	draftBound int
+	notes      []string     // situations observed by the terminal oracle (counter names)
+	lastName   string       // call site that produced the final value
+	script     *scriptStats // access-script phase, if any
 }
 
 func (sp *caseSpec) demandForModel() int {
@@ -446,12 +482,64 @@ func exec(sp *caseSpec, site func(string)) (o obs, f *failure) {
 	}
 	o.final = c.world
 	last := "source"
+	o.lastName = "source:" + sp.Src
 	if len(steps) > 0 {
 		last = steps[len(steps)-1].name
+		o.lastName = last
+	}
+
+	// access-script phase: the final list is consumed through Head/Tail/IsEmpty/NonEmpty calls in
+	// PRNG order first; the element at position i must be the reference's whatever the order.
+	if sp.Script != nil && c.world == wList {
+		reach, insp := sp.scriptRange()
+		full := exp
+		if sp.Unbounded && insp > sp.K {
+			var ok bool
+			if full, _, ok = modelRun(sp, false, insp); !ok {
+				return o, failf("harness", "", "unbounded case whose zero-look-ahead model diverges at the peeked cell was generated")
+			}
+		}
+		if reach > len(full) {
+			reach = len(full)
+		}
+		if insp > len(full)+1 {
+			insp = len(full) + 1
+		}
+		setSite("access-script(" + last + ")")
+		st, sf := runScript(c.li, sp.Script, full, reach, insp)
+		o.script = &st
+		o.pulls = e.pulls
+		if sf != nil {
+			return o, sf
+		}
+		if o.checked && o.pulls > o.allow {
+			return o, failf("over-pull", "", "access script %s with demand k=%d (peek=%v): the source was pulled %d times; strictly needed %d, with one pre-computed output per stage %d, allowed %d (slack %d for %d stages)",
+				sp.Script.Kind, sp.K, sp.Peek, o.pulls, o.need, o.allow-slack, o.allow, slack, o.stepsN)
+		}
+		if ef := e.cellCheck(); ef != nil {
+			return o, ef
+		}
+		// memoisation: the same demands once more evaluate nothing
+		pulls0, cb0, more0 := e.pulls, e.cbCalls, e.evalMore
+		ev0 := append([]int(nil), e.evals...)
+		setSite("access-script-again(" + last + ")")
+		if _, sf := runScript(c.li, sp.Script, full, reach, insp); sf != nil {
+			sf.detail = "second run of the same access script: " + sf.detail
+			return o, sf
+		}
+		grew := len(ev0) != len(e.evals) || more0 != e.evalMore
+		for i := range ev0 {
+			if e.evals[i] != ev0[i] {
+				grew = true
+			}
+		}
+		if grew || e.pulls != pulls0 || e.cbCalls != cb0 {
+			return o, failf("re-evaluated-on-second-traversal", "", "running the same access script (%s) on the same memoised list again evaluated again: source pulls %d -> %d, callback calls %d -> %d", sp.Script.Kind, pulls0, e.pulls, cb0, e.cbCalls)
+		}
 	}
 
 	if sp.Mode == "terminal" {
-		name, tf := runTerminal(setSite, c, sp.Term, sp.TA, sp.TB, exp)
+		name, tf := runTerminal(setSite, c, sp.Term, sp.TA, sp.TB, exp, func(n string) { o.notes = append(o.notes, n) })
 		o.names = append(o.names, name)
 		o.outLen = len(exp)
 		o.pulls = e.pulls
@@ -590,6 +678,22 @@ func finalWorld(sp *caseSpec) int {
 // as long as a failure of the same kind remains.
 func shrink(sp *caseSpec, f *failure) (*caseSpec, *failure) {
 	cur, cf := sp, f
+	// which tied element a terminal returns depends on the elements it is given only: hand them to
+	// it through a plain constructor of the same world, then drop elements
+	if cf.kind == "tie-choice" && cur.Mode == "terminal" {
+		src := map[int]string{wIter: "iterator.FromSeq", wList: "list.Of", wSeq: "fp.Seq"}[finalWorld(cur)]
+		cand := &caseSpec{Src: src, Vals: sliceRef(cur), Mode: "terminal", Term: cur.Term, TA: cur.TA, TB: cur.TB, K: cur.K}
+		if _, nf := exec(cand, nil); sameFailure(cf, nf) {
+			cur, cf = cand, nf
+			for i := len(cur.Vals) - 1; i >= 0 && len(cur.Vals) <= 256; i-- {
+				c2 := *cur
+				c2.Vals = append(append([]int{}, cur.Vals[:i]...), cur.Vals[i+1:]...)
+				if _, nf := exec(&c2, nil); sameFailure(cf, nf) {
+					cur, cf = &c2, nf
+				}
+			}
+		}
+	}
 	if cur.Mode == "terminal" && cur.Term != "toSeq" {
 		cand := *cur
 		cand.Term, cand.TA = "toSeq", 0
@@ -602,7 +706,7 @@ func shrink(sp *caseSpec, f *failure) (*caseSpec, *failure) {
 		for i := range cur.Stages {
 			cand := *cur
 			cand.Stages = append(append([]stageSpec{}, cur.Stages[:i]...), cur.Stages[i+1:]...)
-			if len(cand.Stages) == 0 && cand.Mode == "demand" {
+			if len(cand.Stages) == 0 && cand.Mode == "demand" && !(cf.kind == "demand-order" && srcWorld(cand.Src) == wList) {
 				continue
 			}
 			if cand.Unbounded {
@@ -620,6 +724,18 @@ func shrink(sp *caseSpec, f *failure) (*caseSpec, *failure) {
 			}
 		}
 	}
+	// a failing access script: drop every call that is not needed for the failure
+	if cf.kind == "demand-order" && cur.Script != nil {
+		ops := cur.Script.Ops
+		for i := len(ops) - 1; i >= 0 && len(ops) > 1; i-- {
+			cand := *cur
+			cand.Script = &scriptSpec{Kind: cur.Script.Kind, Ops: append(append([]accessOp{}, ops[:i]...), ops[i+1:]...)}
+			if _, nf := exec(&cand, nil); sameFailure(cf, nf) {
+				c2 := cand
+				cur, cf, ops = &c2, nf, cand.Script.Ops
+			}
+		}
+	}
 	return cur, cf
 }
 
@@ -634,7 +750,11 @@ func keyOf(sp *caseSpec, o obs, f *failure) string {
 		names = append(names, st.name)
 	}
 	if len(names) > 3 {
-		names = names[:3]
+		if f.kind == "demand-order" {
+			names = names[len(names)-3:] // what the consumer touches is the end of the pipeline
+		} else {
+			names = names[:3]
+		}
 	}
 	if sp.Mode == "terminal" && (sp.Term != "toSeq" || len(names) == 0) {
 		tn := f.site
@@ -661,6 +781,9 @@ func describe(sp *caseSpec) string {
 	}
 	for _, st := range sp.Stages {
 		fmt.Fprintf(&b, " {%s a=%d b=%d xs=%v}", st.Op, st.A, st.B, st.Xs)
+	}
+	if sp.Script != nil {
+		fmt.Fprintf(&b, " => access script [%s], then", sp.Script.String())
 	}
 	if sp.Mode == "terminal" {
 		fmt.Fprintf(&b, " => %s(ta=%d,tb=%d)", sp.Term, sp.TA, sp.TB)
@@ -732,6 +855,37 @@ func runCase(w *vrt.W, i int) {
 	if o.memo {
 		w.Add("memo.retraversals", 1)
 	}
+	for _, n := range o.notes {
+		w.Add(n, 1)
+	}
+	if st := o.script; st != nil {
+		w.Add("script.cases", 1)
+		w.Add("script.mode."+sp.Mode, 1)
+		w.Add("script.kind."+sp.Script.Kind, 1)
+		w.Add("script.calls", int64(st.calls))
+		w.Add("script.consumes."+o.lastName, 1)
+		if o.checked {
+			w.Add("script.laziness_checked", 1)
+		}
+		if sp.Unbounded {
+			w.Add("script.unbounded_source", 1)
+		}
+		if st.tailBeforeOwnHead > 0 {
+			w.Add("script.cases_tail_before_own_head", 1)
+			w.Add("script.tail_before_own_head", int64(st.tailBeforeOwnHead))
+		}
+		if st.headAfterLaterHead > 0 {
+			w.Add("script.cases_head_after_successor_head", 1)
+			w.Add("script.head_after_successor_head", int64(st.headAfterLaterHead))
+		}
+		if st.secondCursorLooks > 0 {
+			w.Add("script.cases_two_traversals", 1)
+		}
+		if st.endCellLooks > 0 {
+			w.Add("script.cases_end_cell_tested", 1)
+		}
+		w.Max("script.max_position", int64(st.maxPos))
+	}
 	w.Max("max_output_len", int64(o.outLen))
 	nontrivial := o.stepsN >= 2 && (sp.Unbounded || len(sp.Vals) >= 2) && o.outLen > 0
 	if nontrivial {
@@ -789,16 +943,63 @@ func allNames() []string {
 	return out
 }
 
+// listProducers: every call site that can produce the final List of a pipeline (list
+// constructors used as a source, list stages, hops into the list world): each of them must have
+// been consumed through an access script.
+func listProducers() []string {
+	set := map[string]bool{}
+	for _, s := range listSources {
+		set["source:"+s] = true
+	}
+	for w := 0; w < 3; w++ {
+		for _, op := range allOps {
+			for v := 0; v < 24; v++ {
+				for _, xl := range []int{1, 2} {
+					for a := 0; a < 2; a++ {
+						ss := plan(stageSpec{Op: op, Var: v, A: a, Xs: make([]int, xl)}, w, nil)
+						if last := ss[len(ss)-1]; last.to == wList {
+							set[last.name] = true
+						}
+					}
+				}
+			}
+		}
+	}
+	out := []string{}
+	for n := range set {
+		out = append(out, n)
+	}
+	sort.Strings(out)
+	return out
+}
+
+// The first batches hold pipeline cases (ints), the last ones the tie cases (records whose
+// payload the Ord / Hashable / predicates ignore, see ties.go).
+func pipelineBatches(tier string) int {
+	if tier == "thorough" {
+		return 256
+	}
+	return 32
+}
+
+func tieBatches(tier string) int {
+	if tier == "thorough" {
+		return 16
+	}
+	return 4
+}
+
 func main() {
 	vrt.Main(vrt.Config{
 		Property: "C12",
-		Batches: func(tier string) int {
-			if tier == "thorough" {
-				return 256
-			}
-			return 32
-		},
+		Batches: func(tier string) int { return pipelineBatches(tier) + tieBatches(tier) },
 		Cases: func(tier string, b int) int {
+			if b >= pipelineBatches(tier) { // tie cases run ~60 library calls each
+				if tier == "thorough" {
+					return 12000
+				}
+				return 2500
+			}
 			if tier == "thorough" {
 				return 16000
 			}
@@ -806,20 +1007,47 @@ func main() {
 		},
 		Run: func(w *vrt.W) {
 			for i := w.From; i < w.To; i++ {
-				runCase(w, i)
+				if w.Batch >= pipelineBatches(w.Tier) {
+					runTieCase(w, i)
+				} else {
+					runCase(w, i)
+				}
 			}
 		},
-		Rule: "case = PRNG pipeline spec: a source (instrumented iterator / iterator.Generate / instrumented list.Generate|GenerateFrom|Recurrence / list.Collect|iterator.ToList of an instrumented iterator / every plain constructor of Iterator, List, Seq) over an input of length 0,1,2..64 (sequential, sorted-with-repeats, random or few-valued ints) or unbounded, followed by 1..6 abstract stages (map, filter, filterMap, flatMap, take, drop, takeWhile, dropWhile, span-both, partition-both, prepend, append, zipWithIndex, zip, zip3, scan, tap, reverse, sort, pull, world hop) each realised by one of the library's spellings for the current world (Iterator method / iterator.* / list.* / fp.Seq method / seq.*; stages a world lacks go through the iterator and back), consumed either by demanding the first k elements (k in {0,1,2,n/2,n,n+3,m/2,m,m+3}; optionally one more HasNext/NonEmpty; list walker with or without the last Tail) or by one terminal operation (ToSeq family, Count, Fold/FoldLeft/FoldRight/FoldTry/FoldOption/FoldError/FoldMap/Fold*UsingMap, Reduce over a sum, an affine-composition and a string monoid, GroupBy, Min/Max, ToMap/ToSet/ToGoMap/ToGoSet, Sort, Exists/ForAll/Find, MakeString, Foreach, All, Duplicate). Oracles: output = plain-slice reference (which must itself equal the pull-model reference); fold callbacks budgeted with len(input) calls; pulls of the instrumented source <= pulls of the pull model in which every stage holds one pre-computed output + S (Iterator) or 2S+2 (List), S = number of library stages; each cell of the instrumented list evaluated at most once; a second and an interleaved traversal of the same list value evaluate nothing again. distinct_nontrivial counts distinct (source, sequence of library call sites, consumer) fingerprints of cases with >= 2 library stages, input length >= 2 (or unbounded) and a non-empty expected output.",
+		Rule: "PIPELINE CASES (first 32 / 256 batches). case = PRNG pipeline spec: a source (instrumented iterator / iterator.Generate / instrumented list.Generate|GenerateFrom|Recurrence / list.Collect|iterator.ToList of an instrumented iterator / every plain constructor of Iterator, List, Seq) over an input of length 0,1,2..64 (sequential, sorted-with-repeats, random or few-valued ints) or unbounded, followed by 1..6 abstract stages (0 stages for 1/14 of the list sources: the constructor itself is consumed) (map, filter, filterMap, flatMap, take, drop, takeWhile, dropWhile, span-both, partition-both, prepend, append, zipWithIndex, zip, zip3, scan, tap, reverse, sort, pull, world hop, and the self-operand stages list.Zip(l.Tail^j, l) / Zip(l, l.Tail^j), list.Zip3(l, l.Tail, l.Tail.Tail), list.Combine(l, l.Tail^j) that use one lazy list several times at different offsets) each realised by one of the library's spellings for the current world (Iterator method / iterator.* / list.* / fp.Seq method / seq.*; stages a world lacks go through the iterator and back), consumed either by demanding the first k elements (k in {0,1,2,n/2,n,n+3,m/2,m,m+3}; optionally one more HasNext/NonEmpty; list walker with or without the last Tail) or by one terminal operation (ToSeq family, Count, Fold/FoldLeft/FoldRight/FoldTry/FoldOption/FoldError/FoldMap/Fold*UsingMap, Reduce over a sum, an affine-composition and a string monoid, GroupBy, Min/Max under the natural order and under an order by |x| mod m built five ways (ties), ToMap/ToSet/ToGoMap/ToGoSet, Sort, Exists/ForAll/Find, MakeString, Foreach, All, Duplicate). When the final value is a List, 70% of the demand cases and 35% of the terminal cases first consume it through an ACCESS SCRIPT: a PRNG sequence of Head/IsEmpty/NonEmpty/Unapply/Tail calls on cells addressed by (table, position) of 9 kinds (all Tails then the last Head; all Tails then Heads ascending / descending / random order / with a stride; a cell's head after its successor's; two interleaved traversals 1..3 cells apart; a second traversal forking off in the middle; random calls over three tables) that stays within the demand k (+ peek) of the case and takes Tail only from cells that are non-empty in the reference. Oracles: output = plain-slice reference (which must itself equal the pull-model reference); under an access script the cell at position i holds element i of the reference whatever the order of demands; fold callbacks budgeted with len(input) calls; pulls of the instrumented source <= pulls of the pull model in which every stage holds one pre-computed output + S (Iterator) or 2S+2 (List), S = number of library stages - checked after the access script and again after the head-first walk; each cell of the instrumented list evaluated at most once; running the same access script again, a second and an interleaved traversal of the same list value evaluate nothing again (no source pull, no callback, no cell); Min/Max under an order with ties return an element of extreme key and exactly the element seq.Min/seq.Max return on the same elements. distinct_nontrivial counts distinct (source, sequence of library call sites, consumer) fingerprints of cases with >= 2 library stages, input length >= 2 (or unbounded) and a non-empty expected output, plus the distinct tie cases with at least one duplicate key. TIE CASES (last 4 / 16 batches). case = 0..48 records {Key, ID=position} over 1..4 distinct keys (one key, all distinct, sorted runs, random), one of 6 Seq / 12 Iterator / 12 List constructors for the three spellings, an Ord by Key (5 constructions, ascending or descending), a predicate on Key. Every element-selecting operation is run as seq.*, iterator.*, list.* on the same elements and compared including the ID: Min, Max, ToSet under a Hashable by Key (must be a correct answer, and the iterator / list spelling must return the element the seq spelling returns: tie-choice), Find (first match), GroupBy (groups in input order), ToMap/ToGoMap (last wins), Filter/FilterNot/FilterMap/Partition/Span/TakeWhile/DropWhile (input order), Fold/FoldLeft/FoldRight (elements in order), Reduce/FoldMap with the monoids 'first of maximal key' and 'last of minimal key', Sort (sorted permutation; stability not demanded).",
 		Assumptions: []string{
 			"callbacks are pure functions of their arguments (palettes of 8 functions, 8 predicates, 6 expanders, 4 partial functions, 3 scan functions)",
-			"elements are ints; pipelines are PRNG samples, not an enumeration",
+			"pipeline elements are ints (ties: ints ordered by |x| mod m); tie cases use one record type {Key, ID int}; pipelines are PRNG samples, not an enumeration",
 			"the look-ahead allowance is one produced element per library stage (plus the slack stated in the rule); unbounded sources are used only where the one-look-ahead model itself terminates",
+			"Tail() of an empty List is an empty List (list.Nil, list.Seq and fp.ListAdaptor all do that and list.Zip relies on it): the self-operand stages take l.Tail() up to 3 times without testing for emptiness; access scripts never take Tail of a cell that is empty in the reference",
+			"which of several Ord-equal extremes Min/Max return and which Eqv-equal representative ToSet keeps is defined by the eager seq.* computation on the same elements (the property's wording); seq.* itself is only required to return one of the correct answers",
 		},
 		Floors: func(tier string) map[string]int64 {
 			fl := map[string]int64{"laziness.checked": 3000, "laziness.unbounded_source_pipelines": 500, "laziness.source_not_exhausted": 1000,
 				"memo.retraversals": 1000, "input.len0": 100, "input.len1": 100, "input.len64": 100, "distinct": 2000,
 				"stages.1": 100, "stages.6": 100, "mode.terminal": 1000, "mode.demand": 1000}
 			for _, n := range allNames() {
+				fl["hit."+n] = 1
+			}
+			// access scripts on lazy lists
+			for k, v := range map[string]int64{"script.cases": 10000, "script.cases_tail_before_own_head": 5000, "script.cases_head_after_successor_head": 3000,
+				"script.cases_two_traversals": 2000, "script.cases_end_cell_tested": 2000, "script.laziness_checked": 5000, "script.unbounded_source": 1000,
+				"script.mode.demand": 5000, "script.mode.terminal": 2000, "stages.0": 500} {
+				fl[k] = v
+			}
+			for _, k := range scriptKinds {
+				fl["script.kind."+k] = 500
+			}
+			for _, n := range listProducers() {
+				fl["script.consumes."+n] = 5
+			}
+			// ties: elements that the Ord / Hashable / predicate cannot tell apart
+			for k, v := range map[string]int64{"ties.cases": 5000, "ties.cases_with_duplicate_keys": 3000, "ties.min_tied": 2000, "ties.max_tied": 2000,
+				"ties.find_several_matches": 2000, "ties.group_with_several_elements": 2000, "ties.set_with_eqv_duplicates": 2000,
+				"ties.pipeline_minKey_tied": 200, "ties.pipeline_maxKey_tied": 200} {
+				fl[k] = v
+			}
+			for _, n := range tieSites() {
 				fl["hit."+n] = 1
 			}
 			return fl
@@ -831,8 +1059,21 @@ func main() {
 					missing = append(missing, n)
 				}
 			}
-			cov["call_sites_registered"] = len(allNames())
+			for _, n := range tieSites() {
+				if m.Counters["hit."+n] == 0 {
+					missing = append(missing, n)
+				}
+			}
+			unscripted := []string{}
+			for _, n := range listProducers() {
+				if m.Counters["script.consumes."+n] == 0 {
+					unscripted = append(unscripted, n)
+				}
+			}
+			cov["call_sites_registered"] = len(allNames()) + len(tieSites())
 			cov["call_sites_never_hit"] = missing
+			cov["list_producers_registered"] = len(listProducers())
+			cov["list_producers_never_consumed_by_access_script"] = unscripted
 			cov["max_observed_pulls_minus_need"] = m.Maxes["max_pulls_minus_need"]
 		},
 	})
